@@ -119,7 +119,8 @@ class C12(VectorEngine):
         both_num = a["t"] == "num" and b["t"] == "num"
         src = ('@use "sass:math";\n@use "sass:map";\n' + f"$a: {render_value(a)};\n$b: {render_value(b)};\n"
                + "x{eq_ab: $a==$b; eq_ba: $b==$a; ne_ab: $a!=$b; ne_ba: $b!=$a; aa: $a==$a; bb: $b==$b"
-               + ("; lt: $a<$b; gt: $a>$b" if both_num else "") + "}\n")
+               # ordering numbers with incompatible units is an error (since /repo 24deac0, as in Sass): ask only when it is defined
+               + ("; @if math.compatible($a, $b) { lt: $a<$b; gt: $a>$b }" if both_num else "") + "}\n")
         return dict(api="compile_scss", src=src)
 
     def project(self, inp, res):
